@@ -16,10 +16,10 @@ def run(ctx):
     ev = ctx.work / "events.ndjson"
     if ctx.quick:
         ctx.dsv("C16", "drive", "--out", ev, "--max3d", 3, "--permille", 500, "--per-base", 1,
-                "--variants", 4, "--repeats", 3, "--prisms", prisms, "--prism-cap", 40, "--regress", VERIF / "corpora" / "c16_regress.ds", timeout=7200)
+                "--variants", 10, "--repeats", 3, "--cover-cap", 40, "--prisms", prisms, "--prism-cap", 40, "--regress", VERIF / "corpora" / "c16_regress.ds", timeout=7200)
     else:
         ctx.dsv("C16", "drive", "--out", ev, "--max3d", 3, "--permille", 1000,
-                "--variants", 40, "--repeats", 6, "--prisms", prisms, "--prism-cap", 600, "--regress", VERIF / "corpora" / "c16_regress.ds", timeout=14400)
+                "--variants", 40, "--repeats", 6, "--cover-cap", 600, "--prisms", prisms, "--prism-cap", 600, "--regress", VERIF / "corpora" / "c16_regress.ds", timeout=14400)
     for ln in open(ev):
         e = json.loads(ln)
         if e.get("some") and e["out"]["n"] != e["in"]["n"]:
